@@ -17,7 +17,10 @@ LEVEL_TEXT = ('Unbounded Lean theorems: (0) ALL SIZES of the hand-modelled surfa
               'IsDistance n H (min Lx Ly), Toric3DCode and XCubeCode (Lx,Ly,Lz>=2) have IsDistance n H (min Lx Ly Lz), Planar3DCode '
               'and RotatedPlanar3DCode (Lx,Ly,Lz>=1) have IsDistance n H (min Lx (Ly*Lz)), on the matrices assembled from the '
               'hand-written lattice model, and code.d (min weight over the listed logicals) equals that value, for every '
-              'lattice size; HollowPlanar3DCode (Lx,Ly,Lz>=1): the TRUE distance min Lx wZ (wZ = x edges of a cross-section '
+              'lattice size; RotatedToric3DCode (Lx,Ly>=2 not both odd, Lz>=1): IsDistance n H d and code.d = d with d = min Lx Ly '
+              '(even x even, k=2), min Ly (Lx*Lz) (odd Lx: defect line, logical Z a wall of Y letters), min Lx (Ly*Lz) (odd Ly) - '
+              'packing in the sign picture of the C01 proof, which treats the mixed X/Z generators of the defect lines uniformly; '
+              'HollowPlanar3DCode (Lx,Ly,Lz>=1): the TRUE distance min Lx wZ (wZ = x edges of a cross-section '
               'through the cavity = Ly*Lz - [Lx>=3](Ly-2)(Lz-2)) for every size, code.d = min Lx (Ly*Lz) for every size, equal '
               'when Lx<=2 or Ly<=2 or Lz<=2 or Lx<=2Ly+2Lz-4 and PROVED DIFFERENT otherwise (reported_distance_wrong: known '
               'finding, smallest size (9,3,3): d reported 9, true 8) - upper bound: a listed logical; lower bound: packing with lattice translates (consecutive '
@@ -26,7 +29,7 @@ LEVEL_TEXT = ('Unbounded Lean theorems: (0) ALL SIZES of the hand-modelled surfa
               'translate; X-cube: Z lines are rigid, a line is equivalent to the product of three lines through the other '
               'corners of a rectangle of rows of cubes, which still gives min(L) disjoint representatives); (0b) DEFORMED CODES: a '
               'per-qubit permutation of {X,Y,Z} preserves weight, commutation and span, hence IsDistance and code.d '
-              '(distance_deformation_invariant, every n, H, d); so every deformed code of these seven classes (every name/axis '
+              '(distance_deformation_invariant, every n, H, d); so every deformed code of these classes (every name/axis '
               'get_deformation accepts) has the same distance, for every size (distance_deformed); (1) distance criterion and '
               'packing bound for every valid [[n,k]] code (a '
               'non-trivial logical anticommutes with some listed logical, by C04; d pairwise disjoint representatives '
@@ -49,9 +52,9 @@ LEVEL_NOTE = ('trusted: Lean kernel + standard axioms; translator harness/regen_
               'the distance is proved in general (distance_deformation_invariant), so for deformed codes the native '
               'evaluation is redundant with the undeformed instance theorem. All-sizes (unbounded in L) distance '
               'theorems exist for Toric2DCode, Planar2DCode, RotatedPlanar2DCode, Toric3DCode, Planar3DCode, '
-              'RotatedPlanar3DCode, XCubeCode, HollowPlanar3DCode (no deformation offered) only '
+              'RotatedPlanar3DCode, XCubeCode, RotatedToric3DCode, HollowPlanar3DCode (no deformation offered) only '
               '(undeformed and deformed; trusted in addition: the correspondence harness tying the hand-written '
-              'lattice models to the classes, as in C01); the other 8 classes are covered by the bounded instance '
+              'lattice models to the classes, as in C01); the other 7 classes are covered by the bounded instance '
               'theorems (named ..._partial).')
 TECHNIQUE = ('Lean 4 proof: certificate-checker soundness (unbounded) + kernel-checked instance theorems over tables '
              'and certificates regenerated from the source; differential correspondence of code.d; independent '
@@ -69,7 +72,7 @@ RULE = ('stream 1: one `dist` op per (class, size, deformation): model distance 
 
 # all-sizes distance theorems of the hand-modelled classes (built and axiom-audited with C17)
 ALLSIZES_CLASSES = ['Toric2DCode', 'Planar2DCode', 'RotatedPlanar2DCode', 'Toric3DCode', 'Planar3DCode',
-                    'RotatedPlanar3DCode', 'XCubeCode', 'HollowPlanar3DCode']
+                    'RotatedPlanar3DCode', 'XCubeCode', 'HollowPlanar3DCode', 'RotatedToric3DCode']
 PROPERTY_MODULES = ['PanqecVerif.Properties.C17'] + [f'PanqecVerif.Properties.C17{c}' for c in ALLSIZES_CLASSES]
 
 # instances of the regenerated tables for which no certificate is expected (see LEVEL_NOTE)
